@@ -1,9 +1,17 @@
 package quic
 
-// [UQUIC] SetConnectionIDLimit was previously used to set a custom active connection ID
-// limit on the connIDManager. In quic-go v0.59.1, the connIDManager no longer stores
-// this limit — it is enforced via protocol.MaxActiveConnectionIDs and the peer's
-// transport parameters. This function is kept as a no-op for API compatibility;
-// the ActiveConnectionIDLimit value in the transport parameters already controls
-// how many connection IDs the server will send us.
-func (h *connIDManager) SetConnectionIDLimit(_ uint64) {}
+import "math"
+
+// [UQUIC] SetConnectionIDLimit records the active_connection_id_limit that a QUICSpec
+// advertises in its transport parameters. The peer is allowed to issue that many
+// connection IDs, so the limit enforced on incoming NEW_CONNECTION_ID frames has to be
+// the advertised one rather than protocol.MaxActiveConnectionIDs: a spec advertising a
+// larger value (e.g. Firefox: 8) would otherwise make every connection to a server that
+// uses the full limit fail with CONNECTION_ID_LIMIT_ERROR.
+// Values below 2 are invalid for the transport parameter and are ignored.
+func (h *connIDManager) SetConnectionIDLimit(limit uint64) {
+	if limit < 2 {
+		return
+	}
+	h.connIDLimit = int(min(limit, math.MaxInt32))
+}
